@@ -1,6 +1,7 @@
 """C13 - cold pipelines are lazy and every subscription is independent."""
 from common import *
 import gen
+import tchain
 
 SRCS = ["(of_fn 1)", "(start 2)", "(defer (of_fn 1))", "(defer (defer (start 2)))", "(create (n 1) (n 2) (n 0) c)", "(create (n 1) (e 3))", "(create)",
         "(create (n 2) (n 2) c (n 1))", "(defer (create (n 0) (n 1) (n 2) (n 1) c))", "(iter 0)", "(iter 1)", "(iter 4)", "(defer (iter 3))"]
@@ -37,12 +38,12 @@ def run(tier, seed, replay=None):
     proof_stage(rep, "C13")
     if not build_stage(rep):
         return rep.finish()
-    cases = load_replay_case(replay) if replay else cases_for(tier, rng)
+    cases = load_replay_case(replay) if replay else cases_for(tier, rng) + tchain.two_cases(tier, rng)
     correspond(rep, "C13", cases, "C13_successive_subscriptions_agree / C13_nested_subscriptions_agree / C13_no_shared_cell_in_pipeline_values")
     c = rep.coverage
     hist = {}
     for _, _, t in cases:
-        key = "%s/%s/%s" % (t.get("kind"), t.get("mode"), t.get("depth", t.get("op")))
+        key = "%s/%s/%s" % (t.get("kind"), t.get("mode", "overlapping"), t.get("depth", t.get("op")))
         hist[key] = hist.get(key, 0) + 1
     c["generator_distribution"] = hist
     c["exhaustive"] = False
@@ -50,6 +51,6 @@ def run(tier, seed, replay=None):
                  "iterator) followed by a counting map and a chain of 0-3 of the single-input operator instances (each instance also alone); the "
                  "pipeline value is built, the counters are read (must be 0), then clones of it are subscribed twice or three times in a row, or "
                  "the second clone from inside the first subscriber's 1st / 2nd callback; observation: every subscription's trace and the counters; "
-                 "specification: all traces equal the pure run and the counters are (number of subscriptions) x (calls of one)")
+                 "specification: all traces equal the pure run and the counters are (number of subscriptions) x (calls of one); and " + tchain.RULE2)
     rep.assumptions = ["closures supplied by the user are themselves free of shared state", "futures (from_future) are not in the dynamic cases"]
     return rep.finish()
